@@ -470,9 +470,9 @@ func (m *ConnectMessage) encodeMessage(dst []byte) (int, error) {
 		}
 	}
 
-	// According to the 3.1 spec, it's possible that the usernameFlag is set,
-	// but the username string is missing.
-	if m.UsernameFlag() && len(m.username) > 0 {
+	// A set usernameFlag says the field is there, possibly as a zero-length string
+	// (only the decoder tolerates its absence, as the 3.1 spec did).
+	if m.UsernameFlag() {
 		n, err = writeLPBytes(dst[total:], m.username)
 		total += n
 		if err != nil {
@@ -480,9 +480,8 @@ func (m *ConnectMessage) encodeMessage(dst []byte) (int, error) {
 		}
 	}
 
-	// According to the 3.1 spec, it's possible that the passwordFlag is set,
-	// but the password string is missing.
-	if m.PasswordFlag() && len(m.password) > 0 {
+	// Likewise for the passwordFlag.
+	if m.PasswordFlag() {
 		n, err = writeLPBytes(dst[total:], m.password)
 		total += n
 		if err != nil {
@@ -622,17 +621,13 @@ func (m *ConnectMessage) msglen() int {
 		total += 2 + len(m.willTopic) + 2 + len(m.willMessage)
 	}
 
-	// Add the username length
-	// According to the 3.1 spec, it's possible that the usernameFlag is set,
-	// but the user name string is missing.
-	if m.UsernameFlag() && len(m.username) > 0 {
+	// Add the username length (present whenever the flag is set, see encodeMessage)
+	if m.UsernameFlag() {
 		total += 2 + len(m.username)
 	}
 
 	// Add the password length
-	// According to the 3.1 spec, it's possible that the passwordFlag is set,
-	// but the password string is missing.
-	if m.PasswordFlag() && len(m.password) > 0 {
+	if m.PasswordFlag() {
 		total += 2 + len(m.password)
 	}
 
